@@ -410,6 +410,14 @@ def thread_pairs():
         ("compiled rebuild lambda", "P9c.build", "P9.build"),
         ("re-entrant computed", "P10.parse reentrant", "inner.parse ok"),
         ("union vs struct", "P13.parse", "P13.build"),
+        ("region construct, long vs short payload", "P19.build long", "P19.build short"),
+        ("array of prefixed strings, two value lists", "P19s.build long,short", "P19s.build short,long"),
+        ("const under two contexts", "P17.build le=False", "P17.build le=True"),
+        ("struct with context-dependent const, parse vs build", "P18.parse le=True", "P18.build le=False"),
+        ("lazybound recursion ok vs failing", "P16.parse shallow", "P16.parse truncated"),
+        ("lazybound parse vs build", "P16.parse shallow", "P16.build"),
+        ("signedness twins", "P15u.build a=12", "P15s.build a=12"),
+        ("compressed region long vs empty", "P19c.build long", "P19c.build short"),
     ]
 
 
